@@ -5,5 +5,5 @@ CONSTANTS
   AttrModes <- ModesQuick
   VarNone = FALSE
   ReqVersions <- ReqQuick
-INVARIANT SomeInnerNone
+INVARIANT SomeRequestedOther
 CHECK_DEADLOCK FALSE
